@@ -14,10 +14,6 @@ package db
 //@ ghostvar ansCtl slice
 //@ ghostvar ansType int
 //@ ghostvar ansLoc int
-//@ ghostvar soaCut slice
-//@ ghostvar soaLoc int
-//@ ghostvar nsCut slice
-//@ ghostvar nsLoc int
 //@ func Reader.IsAuthoritative
 //@ trusted
 //@ updates authQ, authLoc
@@ -45,23 +41,53 @@ package db
 //@ ufun ecsof(int) int
 //@ ufun edns0of(int) int
 
+// ForEachResourceRecord as FindSOA / GetNs see it: the callback is applied to rows of the records stored under the
+// given name for the given location (and the global one); ghost trace: which name and location were asked for.
+//@ ghostvar rrQ slice
+//@ ghostvar rrLoc int
+//@ func Reader.ForEachResourceRecord
+//@ trusted
+//@ updates rrQ, rrLoc
+//@ flag callback parseRecord
+//@ flag callbackrow len(row) >= 21
+//@ ensures rrQ == domainName && rrLoc == loc
+
+// FindSOA (C01: every empty authoritative answer carries the zone's SOA): the records of the zone cut are read for
+// the client's location; at most one record -- the first SOA row -- is appended to the authority section, and
+// nothing else of the message changes.
 //@ func FindSOA
-//@ trusted
-//@ updates soaCut, soaLoc
-//@ ensures soaCut == zoneCut && soaLoc == loc
-//@ requires a != nil && len(zoneCut) >= 1
-//@ modifies a
-//@ ensures a.MsgHdr == old(a.MsgHdr) && a.Question == old(a.Question) && a.Answer == old(a.Answer) && a.Extra == old(a.Extra) && a.Compress == old(a.Compress)
+//@ updates rrQ, rrLoc
+//@ flag skip frame
+//@ requires a != nil && len(zoneCut) >= 1 && r != nil
+//@ ensures[lookup] rrQ == zoneCut && rrLoc == loc
+//@ ensures[frame] a.MsgHdr == old(a.MsgHdr) && a.Question == old(a.Question) && a.Answer == old(a.Answer) && a.Extra == old(a.Extra) && a.Compress == old(a.Compress)
+//@ ensures[atmostone] len(a.Ns) == old(len(a.Ns)) || len(a.Ns) == old(len(a.Ns)) + 1
+//@ ensures[kept] forall(k, 0, old(len(a.Ns)), a.Ns[k] == old(a.Ns[k]))
+//@ loop 0 invariant[one] len(a.Ns) == old(len(a.Ns)) + ite(soa, 1, 0) && a.MsgHdr == old(a.MsgHdr) && a.Question == old(a.Question) && a.Answer == old(a.Answer) && a.Extra == old(a.Extra) && a.Compress == old(a.Compress)
+//@ loop 0 invariant[kept] forall(k, 0, old(len(a.Ns)), a.Ns[k] == old(a.Ns[k]))
 
-//@ func HasRecord
-//@ trusted
+// HasRecord: false only if no record of any section has that owner name and type (hdrof: the header of a record).
+//@ ufun hdrof(int) int
+//@ extern github.com/miekg/dns RR.Header
 //@ pure
+//@ ensures result != nil && result == uf.hdrof(recv)
+//@ spec isRec(rr int, name str, t int) bool = asptr(uf.hdrof(rr), "dns.RR_Header").Rrtype == t && asptr(uf.hdrof(rr), "dns.RR_Header").Name == name
+//@ func HasRecord
+//@ pure
+//@ requires msg != nil
+//@ ensures[none] !result ==> forall(k, 0, len(msg.Answer), !isRec(msg.Answer[k], record, qtype)) && forall(k, 0, len(msg.Ns), !isRec(msg.Ns[k], record, qtype)) && forall(k, 0, len(msg.Extra), !isRec(msg.Extra[k], record, qtype))
+//@ loop 0 invariant 0 <= idx0 && idx0 <= len(msg.Answer) && forall(k, 0, idx0, !isRec(msg.Answer[k], record, qtype))
+//@ loop 1 invariant 0 <= idx1 && idx1 <= len(msg.Ns) && forall(k, 0, len(msg.Answer), !isRec(msg.Answer[k], record, qtype)) && forall(k, 0, idx1, !isRec(msg.Ns[k], record, qtype))
+//@ loop 2 invariant 0 <= idx2 && idx2 <= len(msg.Extra) && forall(k, 0, len(msg.Answer), !isRec(msg.Answer[k], record, qtype)) && forall(k, 0, len(msg.Ns), !isRec(msg.Ns[k], record, qtype)) && forall(k, 0, idx2, !isRec(msg.Extra[k], record, qtype))
 
+// GetNs (C01: a referral carries the NS of the closest delegation): the records of the given name are read for the
+// client's location; a failing row decoder means no NS at all.
 //@ func GetNs
-//@ trusted
-//@ updates nsCut, nsLoc
-//@ ensures nsCut == q && nsLoc == loc
-//@ requires len(q) >= 1
+//@ updates rrQ, rrLoc
+//@ flag skip frame
+//@ requires len(q) >= 1 && r != nil
+//@ ensures[lookup] rrQ == q && rrLoc == loc
+//@ ensures[fail] err != nil ==> ns == nil
 
 //@ func AdditionalSectionForRecords
 //@ trusted
@@ -427,12 +453,43 @@ package db
 // type, marker, location, ttl, ttd, weight).
 //@ ghostvar nlook int
 //@ ghostvar nlookGlobal int
+//@ ghostvar lookPrev slice
+//@ ghostvar lookLast slice
 //@ func DataReader.ForEach
 //@ trusted
-//@ updates nlook, nlookGlobal
+//@ updates nlook, nlookGlobal, lookPrev, lookLast
 //@ flag callback f
 //@ flag callbackrow len(row) >= 21
 //@ ensures nlook == old(nlook) + 1 && nlookGlobal == old(nlookGlobal) + ite(len(key) >= 2 && key[0] == 0 && key[1] == 0, 1, 0)
+//@ ensures lookPrev == old(lookLast) && lookLast == key
+
+// ForEachResourceRecord, label-by-label readers (C04: a client sees its own location's records plus untagged ones,
+// nothing else): exactly the key <client location><name> (when the client has a location) and then the key
+// <00><name> are read -- no key of any other location.
+//@ spec keyIs(k slice, l0 int, l1 int, name []byte) bool = len(k) == 2 + len(name) && k[0] == l0 && k[1] == l1 && forall(j, 0, len(name), k[2+j] == name[j])
+//@ func DataReader.ForEachResourceRecord
+//@ updates nlook, nlookGlobal, lookPrev, lookLast
+//@ flag skip frame
+//@ requires loc != nil && r.db != nil && r.db.dbi != nil
+//@ ensures[footprint] nlook <= old(nlook) + 2 && nlook >= old(nlook) + 1
+//@ ensures[global-last] err == nil ==> keyIs(lookLast, 0, 0, domainName)
+//@ ensures[located-first] err == nil && !(loc.LocID[0] == 0 && loc.LocID[1] == 0) ==> nlook == old(nlook) + 2 && keyIs(lookPrev, loc.LocID[0], loc.LocID[1], domainName)
+//@ ensures[only-global] loc.LocID[0] == 0 && loc.LocID[1] == 0 ==> nlook == old(nlook) + 1
+//@ ensures[located-fail] err != nil && nlook == old(nlook) + 1 && !(loc.LocID[0] == 0 && loc.LocID[1] == 0) ==> keyIs(lookLast, loc.LocID[0], loc.LocID[1], domainName)
+// ForEachResourceRecord, closest-key reader (v2 keys): the same footprint in the other key layout -- the key
+// "\000o"<reversed name><client location> (when the client has a location) and then "\000o"<reversed name><00>.
+//@ func sortedDataReader.ForEachResourceRecord
+//@ ghost n int, offs seq, idx seq, roffs seq, ridx seq
+//@ updates nlook, nlookGlobal, lookPrev, lookLast
+//@ flag skip frame
+//@ requires loc != nil && r.db != nil && r.db.dbi != nil && wfname(domainName, n, offs, idx) && revoffs(domainName, n, offs, roffs, ridx)
+//@ call reverseZoneNameToBuffer#0 ghost n = n; offs = offs; idx = idx; roffs = roffs; ridx = ridx
+//@ before DataReader.ForEach#0 assert[located-key] len(key) == len(domainName) + 4 && key[0] == 0 && key[1] == 111 && key[len(key)-2] == loc.LocID[0] && key[len(key)-1] == loc.LocID[1] && key[len(key)-3] == 0
+//@ before DataReader.ForEach#1 assert[global-key] len(key) == len(domainName) + 4 && key[0] == 0 && key[1] == 111 && key[len(key)-2] == 0 && key[len(key)-1] == 0 && key[len(key)-3] == 0
+//@ ensures[footprint] nlook <= old(nlook) + 2 && nlook >= old(nlook) + 1
+//@ ensures[located-first] err == nil && !(loc.LocID[0] == 0 && loc.LocID[1] == 0) ==> nlook == old(nlook) + 2
+//@ ensures[only-global] loc.LocID[0] == 0 && loc.LocID[1] == 0 ==> nlook == old(nlook) + 1
+
 //@ func sortedDataReader.TryForEach
 //@ flag skip frame
 //@ requires r.closestKeyFinder != nil
